@@ -50,8 +50,10 @@ ASSUMPTIONS = [
     "exists, makes a pending awaiter panic at `unwrap()` in AsyncDerivedFuture::poll — not generated, reported as an observation",
     "an initial (hydrated) value equals the fetcher applied to the initial inputs",
     "Owner::paused() is false",
-    "Suspense: only awaits (AsyncDerivedFuture / OnceResourceFuture polls) happen under the boundary; synchronous reads under a "
-    "Suspense boundary (which spawn a helper task) are not generated",
+    "Suspense: awaits (AsyncDerivedFuture / OnceResourceFuture polls) under the boundary are modelled; synchronous reads under "
+    "the boundary (which take a task of the boundary and spawn a helper task that returns it once the node is ready) are "
+    "generated in a tenth of the cases, which are not compared with the Coq model (it has no such event) but judged by the "
+    "Python oracle alone, the helper tasks running as soon as they are ready",
 ]
 
 N_QUICK = 5000
@@ -125,7 +127,15 @@ def generate(rng, tier):
     n = N_QUICK if tier == "quick" else N_THOROUGH
     for _ in range(n):
         c = gen_case(rng)
-        yield dict(case=c, kind="shape%d" % c[0])
+        if rng.random() < 0.1:
+            # synchronous reads under the Suspense boundary (event 9) are not in the Coq model: such cases are
+            # judged by the oracle alone
+            evs = c[4]
+            for _ in range(rng.randint(1, 3)):
+                evs.insert(rng.randint(0, len(evs)), [9])
+            yield dict(case=c, kind="suspense-read", compare=False)
+        else:
+            yield dict(case=c, kind="shape%d" % c[0])
 
 
 def opt(v):
@@ -163,6 +173,13 @@ def oracle(item, impl):
         # Suspense: a boundary whose child awaited the value is told about the next load
         if e[0] == 7:
             sus_flags.append(bool(e[1]))
+        if e[0] == 9:
+            # the boundary holds a task for a synchronous reader while the node is loading
+            if o[1] == 1 and o[6] < 1:
+                return ("event %d: a child of the Suspense boundary read the value synchronously while it is loading, but "
+                        "the boundary has no pending task" % j)
+            if shape != 5:
+                sus_polled = True
         if shape != 5:
             if e[0] == 8 and e[1] < len(sus_flags) and sus_flags[e[1]] and e[1] not in resolved:
                 sus_polled = True
@@ -173,7 +190,7 @@ def oracle(item, impl):
             reload = o[5] > before[5]
             if first or reload:
                 if sus_polled and o[1] == 1 and not (first and reload) and o[6] < 1:
-                    return ("event %d: a load started and is in flight, a child of the Suspense boundary had awaited the "
+                    return ("event %d: a load started and is in flight, a child of the Suspense boundary had awaited or read the "
                             "value, but the boundary has no pending task" % j)
                 sus_polled = False
         val = opt(o[0])
@@ -258,7 +275,9 @@ def valid_case(item):
             return False
         if not isinstance(initial, list) or len(initial) > 1 or (initial and (shape != 3 or initial[0] != 0)):
             return False
-        ar = {0: 3, 1: 1, 2: 2, 3: 1, 4: 2, 5: 2, 6: 2, 7: 2, 8: 2}
+        ar = {0: 3, 1: 1, 2: 2, 3: 1, 4: 2, 5: 2, 6: 2, 7: 2, 8: 2, 9: 1}
+        if any(isinstance(e, list) and e and e[0] == 9 for e in evs) and item.get("compare", True):
+            return False
         manual = False
         na = 0
         for e in evs:
@@ -291,7 +310,7 @@ def valid_case(item):
 
 
 EV = {0: "write-signal", 1: "refetch", 2: "set", 3: "notify", 4: "complete", 5: "poll-task", 6: "run-until-idle",
-      7: "new-awaiter", 8: "poll-awaiter"}
+      7: "new-awaiter", 8: "poll-awaiter", 9: "read-under-suspense"}
 SH = {0: "reads signals s0,s1", 1: "reads memos s0/2, s1", 2: "reads m3 then m2 (m3 depends on m2 = s0*10)",
       3: "resource-like (memo over (refetch, s0/2), manual dependency)", 4: "leptos_server Resource over s0/2",
       5: "leptos_server OnceResource"}
